@@ -131,7 +131,16 @@ func (r replayData) Unix(name string) string {
 		return "0"
 	}
 	k, _ := new(big.Int).SetString(timeK, 10)
-	return new(big.Int).Sub(n, k).String()
+	u := new(big.Int).Sub(n, k)
+	// keep the value inside what time.Unix(0, ns) can take (models may pick times before year 1678)
+	lim := new(big.Int).Lsh(big.NewInt(1), 62)
+	if u.Cmp(lim) > 0 {
+		u = lim
+	}
+	if u.Cmp(new(big.Int).Neg(lim)) < 0 {
+		u = new(big.Int).Neg(lim)
+	}
+	return u.String()
 }
 
 func (r replayData) IsZeroTime(name string) string {
@@ -197,6 +206,10 @@ func shrinkModel(o *Obligation, dir string) string {
 		}
 		if t.Sort == "Slice" {
 			extra = append(extra, fmt.Sprintf("(assert (and (<= (s-cap %s) 256) (<= (s-off %s) 16)))", t.S, t.S))
+		}
+		if isTimeType(p.Type()) {
+			// a date between 1970 and 2100 (or the zero time)
+			extra = append(extra, fmt.Sprintf("(assert (or (= %s 0) (and (> %s %s) (< %s (+ %s 4102444800000000000)))))", t.S, t.S, timeK, t.S, timeK))
 		}
 	}
 	if len(extra) == 0 {
